@@ -15,7 +15,7 @@ def bzVerdict : Verdict → String
 
 def handleBz (kv : List (String × String)) : String :=
   match bytesOfHex (lookupD kv "in" "-") with
-  | some bs => let r := Bzip2.decode bs; s!"{hexOfBytes r.out.toList}:{bzVerdict r.verdict}"
+  | some bs => let r := Bzip2.decode bs; s!"{outSummary r.out}:{bzVerdict r.verdict}"
   | none => "bad-line"
 
 def handleRle1e (kv : List (String × String)) : String :=
